@@ -368,7 +368,7 @@ func runStreamMerge(p Plan) (vk.Outcome, error) {
 			time.Sleep(ms(p.Pace[got%len(p.Pace)]))
 			ctx, cancel := bg, context.CancelFunc(func() {})
 			if p.CallMs > 0 {
-				ctx, cancel = context.WithTimeout(bg, ms(p.CallMs))
+				ctx, cancel = sk.WithTimeout(bg, ms(p.CallMs))
 			}
 			v, err := m.Next(ctx)
 			expired := ctx.Err() != nil
